@@ -25,8 +25,7 @@
   * `luDecomp_factors`       everything together: `A` with rows permuted by `σ` equals `L·U`,
                              `det U = sign σ · det A`.
   * `determinant_total_wf`   totality of `determinant` with ALL hypotheses visible (`A.WF`,
-                             `A.rows = A.cols`), `determinant_ok_iff_wf_square` (for buffers that are
-                             not too long these hypotheses are also necessary), and an `example`:
+                             `A.rows = A.cols`); `determinant_nonsquare`; and an `example`:
                              without `WF` the call fails
                              (`determinant ⟨#[1,2,3],2,2⟩ = .error .range` over ℚ).
   Nothing is `_partial`.
@@ -212,6 +211,27 @@ example : ∃ d, Mat.determinant (⟨#[1, 2, 3, 4], 2, 2⟩ : Mat ℚ) = .ok d :
 
 /-- a square shape with a buffer that is too short is NOT well-formed … -/
 example : ¬ (⟨#[1, 2, 3], 2, 2⟩ : Mat ℚ).WF := by simp [Mat.WF]
+
+/-- … and on it `determinant` panics (the row exchange reads entry (1,1) at flat offset 3):
+    the hypothesis `A.WF` of `determinant_total_wf` cannot be dropped -/
+example : Mat.determinant (⟨#[1, 2, 3], 2, 2⟩ : Mat ℚ) = .error .range := by decide
+
+/-- the squareness hypothesis cannot be dropped either -/
+example : Mat.determinant (⟨#[1, 2, 3, 4, 5, 6], 2, 3⟩ : Mat ℚ) = .error .size :=
+  determinant_nonsquare _ (by decide)
+
+/-- `[[0,1],[1,0]]`: the pivot search at step 0 returns row 1, one exchange is counted, the
+    recorded permutation is the transposition (0 1) -/
+example : Mat.pivotChoice (⟨#[0, 1, 1, 0], 2, 2⟩ : Mat ℚ) 0 = some 1 := by decide
+theorem exchangeCount_example : Mat.exchangeCount (⟨#[0, 1, 1, 0], 2, 2⟩ : Mat ℚ) 2 = 1 := by
+  have h0 : Mat.exchangeAt (⟨#[0, 1, 1, 0], 2, 2⟩ : Mat ℚ) 0 = true := by decide
+  have h1 : Mat.exchangeAt (⟨#[0, 1, 1, 0], 2, 2⟩ : Mat ℚ) 1 = false := by decide +kernel
+  rw [show (2 : Nat) = 0 + 1 + 1 from rfl, Mat.exchangeCount_succ, Mat.exchangeCount_succ, h0, h1]
+  rfl
+example : ∃ s, luDecomp (⟨#[0, 1, 1, 0], 2, 2⟩ : Mat ℚ) = .ok s ∧ s.pivots = 1 := by
+  obtain ⟨s, hs, hc, _⟩ := luDecomp_pivots_count
+    (Mat.Is.of_wf (m := (⟨#[0, 1, 1, 0], 2, 2⟩ : Mat ℚ)) (by simp [Mat.WF]))
+  exact ⟨s, hs, by rw [hc]; exact exchangeCount_example⟩
 
 end Examples
 
